@@ -474,6 +474,14 @@ async fn run_case(case: &Case, rec: Arc<Rec>) -> Value {
             let p = ctl.parked.remove(k);
             log.push(json!(["random", p.actor, p.label]));
             let _ = p.tx.send(());
+            // now and then a second actor is released in the same instant: both run until their next gate,
+            // interleaved at every await in between (file-system calls, locks)
+            if (r >> 13) % 4 == 0 && !ctl.parked.is_empty() {
+                let k2 = ((r >> 40) as usize) % ctl.parked.len();
+                let p2 = ctl.parked.remove(k2);
+                log.push(json!(["random+", p2.actor, p2.label]));
+                let _ = p2.tx.send(());
+            }
         }
     }
     for (i, step) in case.schedule.iter().enumerate() {
